@@ -18,6 +18,17 @@ def cases(draw):
     desc = draw(gen.dcops(min_vars=2, max_vars=5, min_dom=1, max_dom=3, max_constraints=6, min_constraints=1,
                           arities=(1, 2, 2, 3), var_costs=True, costs=gen.mixed_costs,
                           objectives=("min",) if algo == "dsatuto" else ("min", "max")))
+    if draw(st.integers(0, 5)) == 0:
+        # all extensional costs on an offset of 2^33 (and variable cost tables too): best responses then differ by a
+        # few units out of ~10^10, far below any relative tolerance
+        def lift(t):
+            return [lift(x) for x in t] if isinstance(t, list) else (t + 2 ** 33 if isinstance(t, int) else t)
+        for c in desc["constraints"]:
+            if c["kind"] == "matrix":
+                c["table"] = lift(c["table"])
+        for v in desc["variables"]:
+            if v.get("cost") and v["cost"]["kind"] == "dict":
+                v["cost"]["costs"] = lift(v["cost"]["costs"])
     params = {}
     if algo == "dsa":
         params = {"variant": draw(st.sampled_from(["A", "B", "C"])), "p_mode": draw(st.sampled_from(["fixed", "arity"])),
